@@ -1,9 +1,138 @@
-(* C01 — accepted transactions balance; unbalanced ones are rejected, not crashed on. *)
-From Coq Require Import List NArith ZArith Bool QArith Qcanon.
-From Okv Require Import Base.Maps Base.Dec Model.Amount Model.Book.
+(* C01 — accepted transactions balance; unbalanced ones are rejected, not crashed on.
+   Theorems only.  Vocabulary: Model/BookSpec.v (all_zero, two_opposite, balanced,
+   unconstrained, posting_bv, spec_bv, sum_bvs, bal_before).  All theorems hold for every
+   state s (reachable or not), every transaction and every entry list. *)
+From Coq Require Import List NArith ZArith Bool QArith Qcanon Permutation.
+From Okv Require Import Base.Maps.
+From Okv Require Import Base.Dec.
+From Okv Require Import Model.Amount.
+From Okv Require Import Model.Book.
+From Okv Require Import Model.BookSpec.
+From Okv Require Import Proofs.BookA_Amount.
+From Okv Require Import Proofs.BookA_Check.
+From Okv Require Import Proofs.BookA_Posting.
+From Okv Require Import Proofs.BookA_Loop.
+From Okv Require Import Proofs.BookA_Txn.
+From Okv Require Import Proofs.BookA_Examples.
 Import ListNotations.
+Open Scope Qc_scope.
 
-(* placeholder until Proofs/BookProofs.v lands *)
-Theorem C01_empty_txn_accepted : forall s d, exists s', add_transaction s {| t_date := d; t_posts := [] |} = Ok s'.
-Proof. intros s d. eexists. reflexivity. Qed.
-Print Assumptions C01_empty_txn_accepted.
+(* (1) check_balance accepts exactly the balanced residuals: the rounded residual is all zero,
+   or, zero entries dropped, exactly two entries remain, one negative and one positive
+   (`balanced`, stated without reference to the list order); every other residual yields
+   UnbalancedPostings carrying the rounded residual without its zero entries.  In particular
+   it never returns Panic (the Decimal division is not reachable with a zero divisor). *)
+Theorem C01_check_balance_iff : forall f d posts r,
+  ((exists x, check_balance f d posts r = Ok x) <-> balanced f r) /\
+  (~ balanced f r ->
+   check_balance f d posts r = Err (UnbalancedPostings (a_remove_zeros (a_round f r)))).
+Proof. exact check_balance_iff. Qed.
+Print Assumptions C01_check_balance_iff.
+
+(* the verdict does not depend on the iteration order of the residual map *)
+Theorem C01_check_balance_order_independent : forall f d posts r r',
+  Permutation r r' ->
+  ((exists x, check_balance f d posts r = Ok x) <-> (exists x, check_balance f d posts r' = Ok x)).
+Proof. exact check_balance_perm_accept. Qed.
+Print Assumptions C01_check_balance_order_independent.
+
+(* nor do the postings it returns, when the residual has distinct commodities (only the
+   orientation of the implied price event follows the order) *)
+Theorem C01_check_balance_posts_order_independent : forall f d posts r r' ps ev ps' ev',
+  NoDup (keys r) -> Permutation r r' ->
+  check_balance f d posts r = Ok (ps, ev) ->
+  check_balance f d posts r' = Ok (ps', ev') ->
+  ps = ps'.
+Proof. exact check_balance_perm_posts. Qed.
+Print Assumptions C01_check_balance_posts_order_independent.
+
+(* a rejected residual is rejected in any order, the error listing the same entries *)
+Theorem C01_check_balance_error_order_independent : forall f d posts r r' e,
+  Permutation r r' -> check_balance f d posts r = Err e ->
+  exists z z', e = UnbalancedPostings z /\
+               check_balance f d posts r' = Err (UnbalancedPostings z') /\ Permutation z z'.
+Proof. exact check_balance_perm_err. Qed.
+Print Assumptions C01_check_balance_error_order_independent.
+
+(* (2) no transaction makes book-keeping panic, in any state: the unreachable!() of
+   posting_price_event and the division of check_balance are not reachable *)
+Theorem C01_no_panic : forall s t, add_transaction s t <> Panic.
+Proof. exact add_transaction_no_panic. Qed.
+Print Assumptions C01_no_panic.
+
+Theorem C01_process_no_panic : forall es, fst (process es) <> Panic.
+Proof. exact process_no_panic. Qed.
+Print Assumptions C01_process_no_panic.
+
+(* (3) when the posting loop succeeds (expressions evaluate, annotations are admissible,
+   assertions hold, at most one posting is unconstrained) the transaction is accepted iff one
+   amount was omitted or the residual balances; otherwise the error is UnbalancedPostings *)
+Theorem C01_accept_iff : forall s t st,
+  txn_loop s t = Ok st ->
+  ((exists s', add_transaction s t = Ok s') <->
+   (l_unfilled st <> None \/ balanced (s_fmt s) (l_residual st))) /\
+  (~ (l_unfilled st <> None \/ balanced (s_fmt s) (l_residual st)) ->
+   add_transaction s t =
+     Err (UnbalancedPostings (a_remove_zeros (a_round (s_fmt s) (l_residual st))))).
+Proof. exact accept_iff. Qed.
+Print Assumptions C01_accept_iff.
+
+(* ... and a failure of the loop is the transaction's result *)
+Theorem C01_loop_failure_propagates : forall s t,
+  (forall e, txn_loop s t = Err e -> add_transaction s t = Err e) /\
+  (txn_loop s t = Panic -> add_transaction s t = Panic).
+Proof. exact loop_failure_propagates. Qed.
+Print Assumptions C01_loop_failure_propagates.
+
+(* `l_unfilled st = Some k` says exactly that posting k is the one written without amount and
+   balance; a successful loop has at most one such posting *)
+Theorem C01_unfilled_is_the_omitted_posting : forall s t st k p,
+  txn_loop s t = Ok st -> nth_error (t_posts t) k = Some p ->
+  (unconstrained p <-> l_unfilled st = Some k).
+Proof. exact loop_unfilled_iff. Qed.
+Print Assumptions C01_unfilled_is_the_omitted_posting.
+
+(* (4) one omitted amount, or a residual that rounds to zero, is always accepted *)
+Theorem C01_mandatory_accept : forall s t st,
+  txn_loop s t = Ok st ->
+  (l_unfilled st <> None \/ all_zero (a_round (s_fmt s) (l_residual st))) ->
+  exists s', add_transaction s t = Ok s'.
+Proof. exact mandatory_accept. Qed.
+Print Assumptions C01_mandatory_accept.
+
+(* (5) the residual is the sum of the postings' balancing values: posting_bv b p o, with b the
+   running balance just before the posting, is None for the omitted posting, X - current for
+   an assignment, and spec_bv (lot price applied, else cost applied, else the amount) for an
+   explicit amount *)
+Theorem C01_residual_is_sum_of_balancing_values : forall s t st,
+  txn_loop s t = Ok st ->
+  exists bvs,
+    length bvs = length (t_posts t) /\
+    l_residual st = sum_bvs bvs /\
+    forall k p, nth_error (t_posts t) k = Some p ->
+      exists b o, bal_before s t k b /\ nth_error bvs k = Some o /\ posting_bv b p o.
+Proof. exact residual_sum. Qed.
+Print Assumptions C01_residual_is_sum_of_balancing_values.
+
+(* read commodity by commodity *)
+Theorem C01_residual_pointwise : forall bvs c,
+  a_get (sum_bvs bvs) c = qc_sum (map (fun o => bv_get o c) bvs).
+Proof. exact a_get_sum_bvs. Qed.
+Print Assumptions C01_residual_pointwise.
+
+(* the total-price rule of spec_bv in terms of the model's with_sign_of *)
+Theorem C01_with_sign_of_spec : forall t q,
+  with_sign_of t q = if Qclt_le_dec q 0 then - Qcabs.Qcabs t else Qcabs.Qcabs t.
+Proof. exact with_sign_of_spec. Qed.
+Print Assumptions C01_with_sign_of_spec.
+
+(* (6) a failing run reports the index of a transaction; everything before it was processed,
+   and the error is that transaction's *)
+Theorem C01_error_names_transaction : forall es e k,
+  process es = (Err e, k) ->
+  (k < length es)%nat /\
+  exists t s', nth_error es k = Some (ETxn t) /\
+               process (firstn k es) = (Ok s', k) /\
+               process_entry s' (ETxn t) = Err e.
+Proof. exact error_names_transaction. Qed.
+Print Assumptions C01_error_names_transaction.
